@@ -2,13 +2,13 @@
 from sim import ref
 from sim.chart import Cfg, swarm, gen_spec
 from sim.engine import Result, Abandon, fp
-from sim.semrun import Sim, standard_ops, legal_or_abandon
+from sim.semrun import Sim, standard_ops, legal_or_abandon, materialise
 from sim.checks import common
 
 ID = 'C01'
 LEVEL = 'exploration'
 BUDGET = {'quick': 20, 'thorough': 240}
-STREAM_ORDER = ['ops', 'guards', 'chart', 'cfg']
+STREAM_ORDER = ['ops', 'guards', 'mat', 'chart', 'cfg']
 RULE = (common.GEN + 'at most one external event is pending and code sends nothing, so the pending event is known; per step the fired '
         'multiset, the consumed event and the event seen by every guard probe are compared with reference steps 2-5 computed '
         'from the real pre-step configuration; non-trivial = a step in which >= 2 enabled candidates competed; distinct = distinct '
@@ -24,8 +24,9 @@ TECHNIQUE = 'deterministic simulation: seeded chart+history+guard-outcome search
 def run(ch, tier):
     res = Result()
     cfg = swarm(ch.s('cfg'), Cfg(pair_bias=3), tier)
+    cfg.echo = ch.s('cfg').flag(1, 2)     # the text of some guards is also the entry/exit code of a state
     sp = gen_spec(ch.s('chart'), cfg)
-    sim = Sim(sp)
+    sim = Sim(sp, statechart=materialise(sp, ch, res))
     cfp = fp(sp.fingerprint())
     for r in standard_ops(sim, ch, tier, single_pending=True, advance=False):
         res.stats['steps'] += 1
